@@ -123,6 +123,19 @@ class sym_dict(builtins.dict, metaclass = _DictMeta):
             return builtins.dict(pairs)
         return builtins.dict(*a, **k)
 
+class _SetMeta(type):
+    def __instancecheck__(cls, x): return isinstance(x, builtins.set)
+class sym_set(metaclass = _SetMeta):
+    """set() of values that may be proxies: duplicates are removed by pairwise equality (forks), the result is a list (iteration order =
+    first occurrence); identity on concrete values"""
+    def __new__(cls, it = ()):
+        items = list(it)
+        if not any(core.is_sym(v) for v in items): return builtins.set(items)
+        out = []
+        for v in items:
+            if not any((True if u is v else bool(u == v)) for u in out): out.append(v)
+        return out
+
 class Rewrite(ast.NodeTransformer):
     def visit_ListComp(self, node):
         self.generic_visit(node)
